@@ -204,7 +204,11 @@ func (x *Explorer) worker(id int) {
 // runOne executes the harness along one path; returns how the path ended.
 func (x *Explorer) runOne(ex *Exec) (end string, sample *PathSample) {
 	defer func() {
-		if r := recover(); r != nil {
+		r := recover()
+		if ex.threads != nil {
+			ex.threads.killAll()
+		}
+		if r != nil {
 			switch p := r.(type) {
 			case pathEnd:
 				end = p.kind
